@@ -17,6 +17,7 @@ DECIDED = [
     "R-C09-CONTAIN: the coroutine of actor.fn(...) is awaited in place by actor_run (directly or as the operand of asyncio.wait_for): nothing detaches the actor body "
     "from the processing task whose end frees the slot; a synchronous actor runs in an executor that the asyncify wrapper creates and shuts down (waits for) around that one call",
     "R-C09-PAUSE (scan): the Redis fetch pages until a page is empty (no other bound on the paging loop); R-C09-OWN (topics): C11's registry rules reused - every registered topic is consumed",
+    "R-C09-PAUSE (round 5): every guarded poll step of the Redis background consume task catches Exception (redis-py errors are not builtin ConnectionErrors): the task nobody awaits cannot die of one hiccup; R-C09-OWN: _forget_topic tests and deletes the set it discarded from",
 ]
 NOT_DECIDED = ["'makes progress / every job eventually executed' (liveness)", "lost wake-ups inside asyncio primitives"]
 ASSUMPTIONS = ["asyncio.Semaphore counts permits correctly; a done-callback runs exactly once when its task ends (normally, by exception or cancellation)"]
@@ -32,6 +33,9 @@ def run(ctx: Ctx) -> None:
 
     with ctx.as_rule("R-C09-OWN"):
         sync(ctx, "R-C09-OWN")  # every registered actor's topic is among the topics its queue is consumed for: no enqueued job is left unconsumed
+    from .brokers import redis_poll_errors_contained
+
+    redis_poll_errors_contained(ctx, "R-C09-PAUSE")
     from .brokers import redis_scan_exhaustive
 
     redis_scan_exhaustive(ctx, "R-C09-PAUSE")  # no-stall: deliverable messages behind foreign ones are found
